@@ -69,6 +69,20 @@ pub proof fn axiom_tuple3_clone<A: Clone, B: Clone>()
 pub open spec fn all_ok<A, E>(r: Seq<Result<A, E>>, n: int) -> bool {
     forall|j: int| 0 <= j < n ==> (#[trigger] r[j]) is Ok
 }
+/// the location of an offending lookahead: the start of the token, nothing at end of input
+pub open spec fn la_loc<L, T>(la: Option<(L, T, L)>) -> Option<L> { match la { Some(t) => Some(t.0), None => None } }
+/// the reduce log `n` extends `o` by reductions that were all told the lookahead's start
+pub open spec fn rlog_ok<L, T>(o: Seq<Option<L>>, n: Seq<Option<L>>, la: Option<(L, T, L)>) -> bool {
+    o.len() <= n.len() && n.subrange(0, o.len() as int) =~= o
+    && forall|k: int| o.len() <= k < n.len() ==> n[k] == la_loc(la)
+}
+pub proof fn lemma_rlog_push<L, T>(o: Seq<Option<L>>, la: Option<(L, T, L)>)
+    ensures forall|n: Seq<Option<L>>| rlog_ok(o, n, la) ==> rlog_ok(o, #[trigger] n.push(la_loc(la)), la)
+{
+    assert forall|n: Seq<Option<L>>| rlog_ok(o, n, la) implies rlog_ok(o, #[trigger] n.push(la_loc(la)), la) by {
+        assert(n.push(la_loc(la)).subrange(0, o.len() as int) =~= n.subrange(0, o.len() as int));
+    }
+}
 pub proof fn lemma_all_ok_skip<A, E>()
     ensures forall|s: Seq<Result<A, E>>, a: int, c: int| #![trigger all_ok(s.skip(a), c)]
         (0 <= a && 0 <= c && a + c <= s.len() && all_ok(s, a) && all_ok(s.skip(a), c)) ==> all_ok(s, a + c),
@@ -223,7 +237,7 @@ pub open spec fn lr_stops<S, T, R, N, A: ParserAction<S, R>>(tb: Tables<S, T, R,
 // satisfiable.  `W` implements the trait - with all its contracts and proof obligations VERIFIED - for
 // the grammar  S -> a  (states 0 start, 1 after `a`, 2 after S; production 0: S -> a, production 1: accept).
 // ---------------------------------------------------------------------------------------------
-pub struct W;
+pub struct W { pub log: Ghost<Seq<Option<usize>>> }
 pub open spec fn w_valid(st: Seq<i8>) -> bool {
     st =~= seq![0i8] || st =~= seq![0i8, 1i8] || st =~= seq![0i8, 2i8]
 }
@@ -255,6 +269,7 @@ impl ParserDefinition for W {
     open spec fn tables(&self) -> Tables<i8, u8, i8, u8, i8> { w_tables() }
     open spec fn sp_tok_index(&self, t: u8) -> Option<u8> { Some(0u8) }
     open spec fn sp_start_loc(&self) -> usize { 0 }
+    open spec fn sp_rlog(&self) -> Seq<Option<usize>> { self.log@ }
     open spec fn sp_recovery_of(&self, s: u8) -> ErrorRecovery<Self> { arbitrary() }
     open spec fn sp_tks(&self, r: Seq<Result<TokenTriple<Self>, ParseError<Self>>>) -> Seq<Tk<u8>> {
         Seq::new(r.len(), |j: int| match r[j] {
@@ -299,6 +314,7 @@ impl ParserDefinition for W {
     fn error_recovery_symbol(&self, recovery: ErrorRecovery<Self>) -> u8 { proof { assert(false); } 0 }
     fn reduce(&mut self, reduce_index: i8, start_location: Option<&usize>, states: &mut Vec<i8>, symbols: &mut Vec<SymbolTriple<Self>>) -> Option<ParseResult<Self>> {
         proof { self.table_axioms(); }
+        self.log = Ghost(self.log@.push(match start_location { Some(l) => Some(*l), None => None }));
         if reduce_index == 0 {
             assert(states@.last() == 1);
             assert(states@ =~= seq![0i8, 1i8]);
@@ -321,7 +337,7 @@ impl ParserDefinition for W {
 fn w_drive(tokens: std::vec::IntoIter<Result<(usize, u8, usize), ParseError<W>>>) -> ParseResult<W>
     requires tokens.obeys_prophetic_iter_laws()
 {
-    Parser::drive(W, tokens)
+    Parser::drive(W { log: Ghost(Seq::empty()) }, tokens)
 }
 
 } // mod state_machine
